@@ -36,6 +36,7 @@ class CompletionEventImpl {
   CompletionEventImpl(int initStatus) : ftx_(initStatus) {}
 
   void notify(int completedStatus) {
+    DISPENSO_VERIF_POINT("ce.notify.store", this);
     status_.store(completedStatus, std::memory_order_release);
     futex(&ftx_, FUTEX_WAKE_PRIVATE, std::numeric_limits<int>::max(), nullptr, nullptr, 0);
   }
@@ -50,12 +51,15 @@ class CompletionEventImpl {
 
   void wait(int completedStatus) const {
     int current;
+    DISPENSO_VERIF_POINT("ce.wait.load", this);
     while ((current = status_.load(std::memory_order_acquire)) != completedStatus) {
       futex(&ftx_, FUTEX_WAIT_PRIVATE, current, nullptr, nullptr, 0);
+      DISPENSO_VERIF_POINT("ce.wait.load", this);
     }
   }
 
   bool waitFor(int completedStatus, const std::chrono::duration<double>& relTime) const {
+    DISPENSO_VERIF_POINT("ce.waitFor.load0", this);
     if (status_.load(std::memory_order_acquire) == completedStatus) {
       return true;
     }
@@ -73,6 +77,7 @@ class CompletionEventImpl {
     // TODO: determine if we should worry about reducing timeout time subsequent times through the
     // loop in the case of spurious wake.
     int current;
+    DISPENSO_VERIF_POINT("ce.waitFor.load", this);
     while ((current = status_.load(std::memory_order_acquire)) != completedStatus) {
       if (futex(&ftx_, FUTEX_WAIT_PRIVATE, current, &ts, nullptr, 0) && errno == ETIMEDOUT) {
         // Intentionally not re-checking status: returning false on timeout is consistent with
@@ -80,6 +85,7 @@ class CompletionEventImpl {
         // concurrently with timeout is handled by the caller retrying if needed.
         return false;
       }
+      DISPENSO_VERIF_POINT("ce.waitFor.load", this);
     }
     return true;
   }
@@ -87,6 +93,7 @@ class CompletionEventImpl {
   template <class Clock, class Duration>
   bool waitUntil(int completedStatus, const std::chrono::time_point<Clock, Duration>& absTime)
       const {
+    DISPENSO_VERIF_POINT("ce.waitUntil.load", this);
     if (status_.load(std::memory_order_acquire) == completedStatus) {
       return true;
     }
